@@ -68,6 +68,62 @@ func (it *Interp) trimMag(m *Term) *Term {
 	return m
 }
 
+// bigFromWindow: the big-endian value of a byte window with symbolic bounds over a cell object,
+// without forking on the length: a suffix window [off, N) contributes ite(i<off, 0, cell i) per
+// cell; a prefix window [off0, off0+len) with concrete off0 is the whole tail shifted right by
+// 8·(N-off0-len). nil when the window is concrete or has another shape.
+func (it *Interp) bigFromWindow(b Bytes) *Term {
+	c := it.ctx
+	if b.Obj == nil || b.Obj.cells == nil || b.Len.IsConst() && b.Off.IsConst() {
+		return nil
+	}
+	N := len(b.Obj.cells)
+	if N == 0 || N > 160 {
+		return nil
+	}
+	if !b.Off.IsConst() {
+		// suffix window?
+		if b.Len != c.Bin(OpSub, c.Int(int64(N)), b.Off) {
+			return nil
+		}
+		var res *Term
+		for i := 0; i < N; i++ {
+			x := b.Obj.cells[i]
+			if b.Obj.lzOff != b.Off {
+				x = c.Ite(c.Bin(OpSlt, c.Int(int64(i)), b.Off), c.BV(0, 8), x)
+			}
+			if res == nil {
+				res = x
+			} else {
+				res = c.Concat(res, x)
+			}
+		}
+		return res
+	}
+	off0 := int(b.Off.Sint())
+	if off0 < 0 || off0 >= N {
+		return nil
+	}
+	var full *Term
+	for i := off0; i < N; i++ {
+		if full == nil {
+			full = b.Obj.cells[i]
+		} else {
+			full = c.Concat(full, b.Obj.cells[i])
+		}
+	}
+	M := N - off0
+	// 0 <= len <= cap <= M holds for every slice value
+	sh := c.Bin(OpMul, c.Bin(OpSub, c.Int(int64(M)), b.Len), c.Int(8))
+	var shw *Term
+	if full.w >= 64 {
+		shw = c.ZExt(sh, full.w)
+	} else {
+		shw = c.Extract(sh, full.w-1, 0)
+	}
+	return c.Bin(OpLShr, full, shw)
+}
+
 func init() {
 	models["math/big.NewInt"] = func(it *Interp, fr *frame, args []Value, fn *ssa.Function) Value {
 		c := it.ctx
@@ -79,6 +135,10 @@ func init() {
 	models["(*math/big.Int).SetBytes"] = func(it *Interp, fr *frame, args []Value, fn *ssa.Function) Value {
 		c := it.ctx
 		b := args[1].(Bytes)
+		if m := it.bigFromWindow(b); m != nil {
+			it.bigSet(args[0], bigVal{c.False, m})
+			return args[0]
+		}
 		n := it.concLen(b)
 		mag := c.BV(0, 8)
 		if n > 0 {
@@ -110,6 +170,7 @@ func init() {
 			lz = c.Ite(nz, c.Int(int64(i)), lz)
 		}
 		ln := c.Bin(OpSub, c.Int(int64(n)), lz)
+		all.Obj.lzOff = lz
 		return Bytes{Obj: all.Obj, Off: lz, Len: ln, Cap: ln}
 	}
 	models["(*math/big.Int).FillBytes"] = func(it *Interp, fr *frame, args []Value, fn *ssa.Function) Value {
